@@ -512,7 +512,7 @@ def replay(path, seed):
         got = None if "panic" in res else norm_desc(res)
         print("impl now:", res, "documented:", want)
         return 0 if got == want else 1
-    return 0
+    return 2   # not a kind of record this function knows how to replay (the driver then re-runs the check)
 
 
 
